@@ -17,6 +17,7 @@ import (
 	"os"
 	"path/filepath"
 	"sort"
+	"strings"
 
 	"github.com/nspcc-dev/neo-go/pkg/core/dao"
 	istorage "github.com/nspcc-dev/neo-go/pkg/core/interop/storage"
@@ -35,6 +36,13 @@ type c09Op struct {
 	V    string `json:"v,omitempty"`    // hex value
 	Priv bool   `json:"priv,omitempty"` // wrap: private layer
 	I    int    `json:"i,omitempty"`    // persist: layer index below the top
+	// gcbase | gctop: SeekGC over {P, S, Bw}; keep iff (first value byte, 0 if none) % max(1,Mod) != Res; stops after Stop pairs (0 = never)
+	P    string `json:"p,omitempty"`
+	S    string `json:"s,omitempty"`
+	Bw   bool   `json:"bw,omitempty"`
+	Mod  int    `json:"mod,omitempty"`
+	Res  int    `json:"res,omitempty"`
+	Stop int    `json:"stop,omitempty"`
 }
 
 type c09Query struct {
@@ -188,6 +196,51 @@ func (s *c09Stack) apply(o c09Op) error {
 	case "drop":
 		if n >= 2 {
 			s.pop()
+		}
+	case "gcbase", "gctop":
+		prefix, start := unhx(o.P), unhx(o.S)
+		if len(prefix) == 0 {
+			return nil // empty Prefix is not supported by MemoryStore/MemCachedStore (store.go), not generated
+		}
+		mod := max(1, o.Mod)
+		keep := func(v []byte) bool {
+			b := 0
+			if len(v) > 0 {
+				b = int(v[0])
+			}
+			return b%mod != o.Res
+		}
+		visited := 0
+		cb := func(_, v []byte) (bool, bool) {
+			visited++
+			return keep(v), o.Stop == 0 || visited < o.Stop
+		}
+		rng := storage.SeekRange{Prefix: prefix, Start: start, Backwards: o.Bw}
+		var (
+			err error
+			sh  map[string][]byte
+		)
+		if o.T == "gcbase" {
+			err, sh = s.base.SeekGC(rng, cb), s.shBase
+		} else {
+			err, sh = s.top().SeekGC(rng, cb), s.sh[n-1]
+		}
+		if err != nil {
+			return err
+		}
+		live := map[string][]byte{}
+		for k, v := range sh {
+			if v != nil {
+				live[k] = v
+			}
+		}
+		for i, kv := range c09RangeOf(live, prefix, start, o.Bw) {
+			if o.Stop != 0 && i >= o.Stop {
+				break
+			}
+			if !keep(kv.V) {
+				delete(sh, string(kv.K))
+			}
 		}
 	default:
 		return fmt.Errorf("unknown op %q", o.T)
@@ -480,6 +533,15 @@ func c09CoqOps(ops []c09Op) string {
 			xs = append(xs, "PP")
 		case "drop":
 			xs = append(xs, "X")
+		case "gcbase", "gctop":
+			if o.P == "" {
+				continue
+			}
+			c := "GB"
+			if o.T == "gctop" {
+				c = "GT"
+			}
+			xs = append(xs, fmt.Sprintf("%s (R %s %s %s 0) (G %d %d %d)", c, coqBytes(unhx(o.P)), coqBytes(unhx(o.S)), coqBool(o.Bw), max(1, o.Mod), o.Res, o.Stop))
 		}
 	}
 	return coqList(xs)
@@ -745,6 +807,52 @@ func c09GenHistory(r *rng, pool [][]byte, n int) []c09Op {
 			}
 			continue
 		}
+		if r.chance(7) { // SeekGC on the base store (as Blockchain does) or on the top layer's own maps
+			k := pick(r, pool)
+			o := c09Op{T: pick(r, []string{"gcbase", "gcbase", "gctop"}), P: hx(k[:1+r.intn(min(2, len(k)))]), Bw: r.chance(40),
+				Mod: 1 + r.intn(3), Res: pick(r, []int{0, 0, 1})}
+			if r.chance(70) { // aim at a pair the history has written: its key's prefix, the class of its value
+				var empties []c09Op
+				for _, w := range ops {
+					if w.T == "put" && w.V == "" {
+						empties = append(empties, w)
+					}
+				}
+				for tries := 0; tries < 12 && len(ops) > 0; tries++ {
+					w := ops[r.intn(len(ops))]
+					if len(empties) > 0 && r.chance(50) {
+						w = pick(r, empties) // empty values are values: a GC must treat them like any other
+					}
+					if w.T == "put" {
+						wk, wv := unhx(w.K), unhx(w.V)
+						o.P = hx(wk[:1+r.intn(min(3, len(wk)))])
+						b := 0
+						if len(wv) > 0 {
+							b = int(wv[0])
+						}
+						o.Res = b % o.Mod
+						break
+					}
+				}
+			}
+			if r.chance(45) {
+				o.Stop = 1 + r.intn(3)
+			}
+			if r.chance(20) {
+				o.S = hx(c09RandBody(r, 2))
+			}
+			if o.T == "gcbase" && r.chance(50) { // flush everything first, so that the base store has something to collect
+				for i := 0; i < depth; i++ {
+					ops = append(ops, c09Op{T: "persist", I: i})
+				}
+				if privs[depth-1] && depth >= 2 {
+					depth--
+					privs = privs[:depth]
+				}
+			}
+			ops = append(ops, o)
+			continue
+		}
 		if depth < 4 && r.chance(7) { // transaction-like: private wrap, one to three writes, commit into the layer below
 			ops = append(ops, c09Op{T: "wrap", Priv: true})
 			for j := 0; j < 1+r.intn(3); j++ {
@@ -768,7 +876,7 @@ func c09GenHistory(r *rng, pool [][]byte, n int) []c09Op {
 			v := []byte{byte(vseq)}
 			if r.chance(10) {
 				v = append(v, byte(r.intn(256)))
-			} else if r.chance(8) {
+			} else if r.chance(12) {
 				v = []byte{} // an empty value is a value, not a tombstone
 			}
 			ops = append(ops, c09Op{T: "put", K: hx(pick(r, pool)), V: hx(v)})
@@ -802,6 +910,44 @@ func c09GenHistory(r *rng, pool [][]byte, n int) []c09Op {
 			}
 		}
 	}
+	return ops
+}
+
+// a short history aimed at SeekGC: a few pairs (empty values among them), everything flushed, one GC whose rejected
+// class is the class of a value that is there, sometimes a second layer with pending writes over the same keys
+func c09GenGcHistory(r *rng, pool [][]byte) []c09Op {
+	var ops []c09Op
+	var vals [][]byte
+	n := 3 + r.intn(4)
+	for i := 0; i < n; i++ {
+		v := []byte{byte(1 + r.intn(6))}
+		if r.chance(30) {
+			v = []byte{}
+		}
+		vals = append(vals, v)
+		ops = append(ops, c09Op{T: "put", K: hx(pick(r, pool)), V: hx(v)})
+	}
+	ops = append(ops, c09Op{T: "persist"})
+	if r.chance(40) {
+		ops = append(ops, c09Op{T: "wrap", Priv: r.chance(50)}, c09Op{T: "put", K: hx(pick(r, pool)), V: hx([]byte{byte(7 + r.intn(3))})})
+		if r.chance(50) {
+			ops = append(ops, c09Op{T: "del", K: hx(pick(r, pool))})
+		}
+	}
+	w := ops[r.intn(n)]
+	wk, wv := unhx(w.K), unhx(w.V)
+	o := c09Op{T: "gcbase", P: hx(wk[:1+r.intn(min(2, len(wk)))]), Bw: r.chance(50), Mod: 1 + r.intn(3)}
+	if len(wv) > 0 {
+		o.Res = int(wv[0]) % o.Mod
+	}
+	if r.chance(50) {
+		o.Stop = 1 + r.intn(3)
+	}
+	ops = append(ops, o)
+	if r.chance(50) {
+		ops = append(ops, c09Op{T: "persist"}, c09Op{T: "persist", I: 1})
+	}
+	_ = vals
 	return ops
 }
 
@@ -881,6 +1027,9 @@ func runC09(args []string) error {
 		backend := backends[h%3]
 		pool := c09KeyPool(r)
 		ops := c09GenHistory(r, pool, 5+r.intn(36))
+		if h%6 >= 3 && h%6-3 == (h/6)%3 { // one history in six, rotating over the backends: aimed at SeekGC
+			ops = c09GenGcHistory(r, pool)
+		}
 		s, err := c09NewStack(backend, dir, h)
 		if err != nil {
 			return err
@@ -891,7 +1040,7 @@ func runC09(args []string) error {
 				s.close(dir, backend, h)
 				return fmt.Errorf("history %d op %d: %w", h, i, err)
 			}
-			if i < nextObs && i != len(ops)-1 {
+			if i < nextObs && i != len(ops)-1 && !strings.HasPrefix(o.T, "gc") { // a SeekGC is always looked at right away
 				continue
 			}
 			nextObs = i + 1 + r.intn(6)
